@@ -336,7 +336,7 @@ func removeFingerprint(dir string) bool {
 }
 
 func snapDirs(dir string) (n int, staged int) {
-	es, _ := os.ReadDir(filepath.Join(dir, "rsnapshots"))
+	es, _ := os.ReadDir(filepath.Join(dir, "wsnapshots"))
 	for _, e := range es {
 		if e.IsDir() && !strings.HasSuffix(e.Name(), ".tmp") {
 			n++
